@@ -251,4 +251,14 @@ Proof.
   rewrite H1. split; [intros [[]|H]; exact H | now right].
 Qed.
 
+(* after any number of earlier scans of any earlier directory contents, the listing is exactly
+   what the LAST scan found: nothing of an earlier scan survives *)
+Theorem rescan_exact (history : list (list (list N))) files t :
+  (In t (explorer_run decompress crc (history ++ [files])) <->
+     exists f, In f files /\ scan_file f = Some t) /\
+  NoDup (explorer_run decompress crc (history ++ [files])).
+Proof.
+  unfold explorer_run. rewrite fold_left_app. cbn [fold_left]. unfold rescan. apply listing_exact.
+Qed.
+
 End NameProofs.
